@@ -74,8 +74,8 @@ pub fn str_slice<S: AsRef<str>>(s: S, start: Option<i64>, end: Option<i64>, step
 /// ## Returns
 ///
 /// - (`String`): the concatenated string.
-pub fn str_concat(lhs: &str, rhs: &str) -> String {
-    semantics_str_concat(lhs, rhs)
+pub fn str_concat<L: AsRef<str>, R: AsRef<str>>(lhs: L, rhs: R) -> String {
+    semantics_str_concat(lhs.as_ref(), rhs.as_ref())
 }
 
 /// Compare two strings for equality.
